@@ -38,6 +38,8 @@ MIN_REACH = {
     "series_compared": {"quick": 1200, "thorough": 20000},
     "colors_compared": {"quick": 500, "thorough": 8000},
     "scatter_colors_compared_on_a_log_scale": {"quick": 40, "thorough": 600},
+    "scatter_series_of_more_than_51_points": {"quick": 8, "thorough": 150},
+    "heat_maps_drawn_under_a_non_default_mesh_shading_setting": {"quick": 6, "thorough": 100},
     "panels_compared": {"quick": 150, "thorough": 2500},
     "hist_series_compared": {"quick": 80, "thorough": 1200},
     "heatmap_cells_compared": {"quick": 500, "thorough": 8000},
@@ -70,6 +72,9 @@ def cases(ctx):
              "nr": rng.randint(1, 3), "nc": rng.randint(1, 3), "use_row": rng.random() < 0.7, "use_col": rng.random() < 0.7,
              "uniform": rng.random() < 0.8, "xvar": rng.random() < 0.3, "err": rng.choice([None, None, "y", "x", "xy"]),
              "dimorder_seed": rng.randint(0, 999)}
+        if kind in ("scatter", "auto_scatter", "lineplot", "scatter_grid") and c["dseed"] % 7 == 3:
+            # LONG series (52-75 points: beyond the length up to which markers are drawn by default on lines)
+            c["nx"] = 52 + c["dseed"] % 24
         if kind in ("auto_lineplot", "auto_scatter") and c["dseed"] % 5 < 2:
             # x values of its own for every line (2-D x of the same shape as y): nothing ambiguous about the orientation
             # then, also when there are as many lines as points per line
@@ -387,6 +392,11 @@ def judge_line_axes(ctx, ax, ds, case, o, xname, ynames, zvals, kind, labels, wa
             want = sorted(zip(exp[0].tolist(), exp[1].tolist()))
             lbl = art.get_label()
             col = art.get_facecolors()
+            if len(off) and (not art.get_paths() or not len(art.get_paths()[0].vertices) or not art.get_visible()
+                             or not np.all(np.asarray(art.get_sizes(), dtype=float) > 0)):
+                bad.append("series %d: its %d points are stamped with an empty / invisible marker - nothing is drawn for them" % (i, len(off)))
+            if len(off) > 51:
+                ctx.count("scatter_series_of_more_than_51_points")
             if o.get("_c") and "cv" in ds:
                 arr = art.get_array()
                 nn = lambda t: tuple("nan" if v != v else v for v in t)      # noqa: E731  (NaN-safe sorting / comparing)
@@ -527,8 +537,15 @@ def run_case(ctx, case):
                 xyzpy.lineplot(dbad, "x", "y", "z", y_err="ye")
         except Exception:
             ctx.count("figures_drawn_after_a_failed_plot_call")
+    import contextlib
+    import matplotlib
+    ambient = contextlib.nullcontext()
+    if "heatmap" in base and case["dseed"] % 4 == 1:
+        # the calling program has set matplotlib's default mesh shading for its own pcolormesh calls
+        ambient = matplotlib.rc_context({"pcolor.shading": ["nearest", "gouraud", "flat"][case["dseed"] % 3]})
+        ctx.count("heat_maps_drawn_under_a_non_default_mesh_shading_setting")
     try:
-        with quiet():
+        with quiet(), ambient:
             if base in ("lineplot", "lineplot_c"):
                 if "ye" in ds:
                     kw["y_err"] = "ye"
